@@ -57,7 +57,7 @@ def body(c):
                         EnvSteps=K.tla_set(env), EnvWeight="2", WriteKeys="1..4", SeekKeys="1..6",
                         IterOptList=K.tla_seq([K.tla_opts(), K.tla_opts(all=True), K.tla_opts(rev=True), K.tla_opts(pfx=1, pmode="opt")]),
                         ScanVias='{"iter", "stream"}')
-    n = 120 if q else 1500
+    n = 120 if q else 600
     sims = K.generate(c, "sim-enc", sim, n, 32, c.seed, workers=8 if q else 12, timeout=1800)
     c.cov["generated_op_histogram"] = K.op_histogram(sims)
     cli = K.build_badger_cli()
@@ -68,7 +68,7 @@ def body(c):
     digest = {r["case"]: r["digest"] for r in plain if r["ok"]}
     encs = ["enc16+vlog", "enc24+vlog", "enc32+vlog"]
     if not q:
-        encs += ["enc16+zstd", "enc32+default", "enc24+vlog+l3"]
+        encs += ["enc16+zstd", "enc24+vlog+l3"]
     ndiff = 0
     for i, conf in enumerate(encs):
         flags = ["-scan", "-ivs", "-wrongkey"]
